@@ -205,6 +205,9 @@ func MonC05() *Mon {
 			if f.BlockProcessed != accNow {
 				bad("stale-blockprocessed", "blockProcessed=%v although accepted(height %d)=%v", f.BlockProcessed, h, accNow)
 			}
+			if f.TxSubscriptionOn {
+				bad("stale-subscription", "the transaction subscription of the previous height is still on")
+			}
 			if f.PreBlockProcessed != (n.PreAccepted[h] > 0) {
 				bad("stale-preblockprocessed", "preBlockProcessed=%v although pre-accepted=%v", f.PreBlockProcessed, n.PreAccepted[h] > 0)
 			}
@@ -388,6 +391,7 @@ func MonC12() *Mon {
 		other    int  // other events between supplies
 		live     bool // preconditions held at the start of the current OnTransaction
 		listSum  vt.H
+		hashes   []vt.H // the proposal's transaction list
 	}
 	obs := map[*Node]*ob{}
 	curProp := func(n *Node) (vt.H, bool) {
@@ -423,6 +427,7 @@ func MonC12() *Mon {
 			if o == nil || o.h != d.BlockIndex || o.v != d.ViewNumber || vt.Sum(hashList(d.TransactionHashes)) != o.listSum {
 				o = &ob{h: d.BlockIndex, v: d.ViewNumber, asked: map[vt.H]bool{}, supplied: map[vt.H]bool{}}
 				o.listSum = vt.Sum(hashList(d.TransactionHashes))
+				o.hashes = append([]vt.H(nil), d.TransactionHashes...)
 				o.prop = o.listSum
 				obs[n] = o
 			}
@@ -466,16 +471,32 @@ func MonC12() *Mon {
 				}
 			}
 			// every requested transaction has been supplied while the node stayed in the view
-			answered := false
+			answered, responded, txInvalid := false, false, false
 			for _, p := range n.Own[o.h] {
 				if p.V != o.v {
 					continue
 				}
 				if p.T == dbft.PrepareResponseType && p.Body.(*vt.PrepareResponse).Prep == o.prop {
-					answered = true
+					answered, responded = true, true
 				}
 				if p.T == dbft.ChangeViewType {
 					answered = true
+					if p.Body.(*vt.ChangeView).R == dbft.CVTxInvalid {
+						txInvalid = true
+					}
+				}
+			}
+			// "... or with a change-view request if the completed block fails verification": a node that rejects the
+			// completed block as invalid although the application accepts exactly that block answered wrongly
+			if txInvalid && !responded && !n.RejectBlocks {
+				acceptable := true
+				for _, th := range o.hashes {
+					if tx, ok := n.W.TxByHash(th); !ok || tx.Poisoned() {
+						acceptable = false
+					}
+				}
+				if acceptable {
+					n.W.Fail("C12", fmt.Sprintf("node %d height %d view %d: the completed block of proposal %s is acceptable to the application, yet the node asked for a view change with reason TxInvalid", n.ID, o.h, o.v, o.prop), "changeview-for-acceptable-block")
 				}
 			}
 			if len(o.asked) >= 2 && o.other > 0 {
